@@ -10,7 +10,7 @@ import re
 from ..effects import Effects, outer_field
 from ..engine import site_str
 from ..ir import AnalysisBroken, walk, strip, sym_paths
-from .C12 import _expr_txt
+from .C12 import _expr_txt, _FN
 from .common import insts, paths_of
 from . import C04
 
@@ -40,6 +40,7 @@ def has_history(F):
 
 
 def check(ctx, F):
+    _FN["F"] = F
     if not has_history(F):
         ctx.note("unit %s compiled without TRANSITION_HISTORY: only C09.change-predicate evaluated" % F.label)
     E = Effects(F)
@@ -198,6 +199,53 @@ def check_append(ctx, F, rule):
             ctx.violation(rule, site + "/bound", "%s (%s)" % (site, F.floc(fid)),
                           "operator+= of an array of capacity %s appends while _count < %s: items beyond that are %s" % (
                               cap, sorted(bounds), "dropped although there is room" if max(bounds) < cap else "written past the array"), {})
+        # ... and a batch that fits is appended: the conditions under which the first emplace() / store is reached, evaluated over every
+        # (_count, other.count()) with _count + other.count() <= CAPACITY and a non-empty batch, hold for at least one path
+        if cap is not None and cap <= 64:
+            from .common import eval_expr, NotEvaluable
+            reach = []
+            for p in sym_paths(F, fid, 1):
+                conds = []
+                hit = False
+                for ev in p:
+                    if ev[0] == "assume":
+                        conds.append((ev[1], bool(ev[3])))
+                    elif (ev[0] == "call" and ev[2] is not None and F.fn(ev[2])["name"] == "emplace") or ev[0] == "new" or \
+                            (ev[0] == "write" and "_items" in (ev[2] or "")):
+                        hit = True
+                        break
+                if hit:
+                    reach.append(conds)
+            dropped = None
+            for c in range(0, cap + 1):
+                for n in range(1, cap - c + 1):
+                    def leaf(node):
+                        node = strip(node)
+                        t = _expr_txt(node)
+                        if t in ("_count", "this->_count", "this._count"):
+                            return c
+                        if t in ("other.count()", "other._count", "count(other)"):
+                            return n
+                        raise NotEvaluable(t)
+                    ok = False
+                    for conds in reach:
+                        good = True
+                        for node, pol in conds:
+                            try:
+                                if bool(eval_expr(node, {}, leaf)) != pol:
+                                    good = False
+                                    break
+                            except NotEvaluable:
+                                continue
+                        if good:
+                            ok = True
+                            break
+                    if not ok and dropped is None:
+                        dropped = (c, n)
+            if dropped:
+                ctx.violation(rule, site + "/fits", "%s (%s)" % (site, F.floc(fid)),
+                              "with %d item(s) stored and a batch of %d (capacity %d: it fits) no path reaches the append: an approved round is dropped "
+                              "from the step's record" % (dropped[0], dropped[1], cap), {})
         ctx.instance(rule, site, {"function": site, "loc": F.floc(fid), "emplace_calls": emplaces, "direct_stores": stores, "capacity": cap, "bounds": sorted(bounds)})
         bad = [t for t in stores if "_count" not in t]
         if bad or (not emplaces and not stores):
